@@ -4,7 +4,7 @@ git worktree of /repo under /tmp/par-matrix/<k>/ (removed at the end).  For ever
 the worker applies the patch to ITS repo copy, runs the quick check(s) there and undoes the patch.  /repo itself is
 not touched.  Results are merged into seeded/<name>/meta.json (detected_by) and printed.
 
-usage: par_matrix.py [-j N] [--harmless DIR] [name-prefix ...]
+usage: par_matrix.py [-j N] [--harmless DIR] [name-prefix | ~name-substring ...]
   --harmless DIR : DIR/<name>/patch.diff are behaviour-preserving patches; every claimed check is run on each and any
                    VIOLATION counts as a false alarm (nothing is written to seeded/)
 """
@@ -70,6 +70,9 @@ def run_one(repo, verif, patch, props):
         sh(["git", "-C", repo, "clean", "-fdq", "src", "tests"])
     return res
 
+def sel(name, o):
+    return (o[1:] in name) if o.startswith('~') else name.startswith(o)
+
 def main():
     args = sys.argv[1:]
     n = 4; harmless = None; only = []
@@ -82,13 +85,13 @@ def main():
     if harmless:
         for name in sorted(os.listdir(harmless)):
             p = os.path.join(harmless, name, "patch.diff")
-            if os.path.exists(p) and (not only or any(name.startswith(o) for o in only)):
+            if os.path.exists(p) and (not only or any(sel(name, o) for o in only)):
                 jobs.put((name, p, all_props()))
     else:
         sd = os.path.join(ROOT, "seeded")
         for name in sorted(os.listdir(sd)):
             d = os.path.join(sd, name)
-            if not os.path.isdir(d) or (only and not any(name.startswith(o) for o in only)): continue
+            if not os.path.isdir(d) or (only and not any(sel(name, o) for o in only)): continue
             meta = json.load(open(os.path.join(d, "meta.json")))
             jobs.put((name, os.path.join(d, "patch.diff"), [meta["breaks_property"]]))
     results = {}
